@@ -48,13 +48,13 @@ FLOORS = {
                  "eval:aliasing": 750, "distinct_nontrivial": 100000},
 }
 JOBS = {"quick": 1, "thorough": 16}
-CASE_TIMEOUT_S = 300
+CASE_TIMEOUT_S = 1200
 
 
 def plan(tier):
     if tier == "quick":
         return collections.OrderedDict(specs=4, history=8, clone=6, unfitted=2, rejection=5, aliasing=8, borrowed=12)
-    return collections.OrderedDict(specs=160, history=240, clone=160, unfitted=20, rejection=120, aliasing=240, borrowed=320)
+    return collections.OrderedDict(specs=160, history=240, clone=160, unfitted=20, rejection=120, aliasing=240, borrowed=320, ambient=17)
 
 
 # ----------------------------------------------------------------------
@@ -361,6 +361,8 @@ def _profile_scatter_score(est, a, seed):
 
 # ----------------------------------------------------------------------
 def run_case(run, tap, stream, index, rng):
+    if stream == "ambient":
+        return core.ambient_tests(run, core.ALL_TEST_FILES[index])
     import sklearn.base
     import verde as vd
 
